@@ -90,9 +90,16 @@ def simple_family(draw, max_calls=3, with_metrics=None):
         kinds = OPS + ["cumsum"]
         if with_metrics:
             kinds = kinds + ["integrate", "average", "derivative", "cumint", "get_metric", "weighted"]
+        kinds = kinds + ["gridop", "gridop"] + (["interp_like", "interp_like"] if len(arrays) > 1 else [])
         kind = draw(st.sampled_from(kinds))
         call = {"da": aname, "axis": op_axes, "axis_spelling": draw(st.sampled_from(["list", "tuple"]))}
-        if kind in OPS + ["cumsum", "cumint", "weighted"]:
+        if kind == "gridop":
+            n0 = op_axes[0]
+            call = {"fn": "gridop", "op": draw(st.sampled_from(OPS + ["cumsum"])), "da": aname, "axis": n0, "frm": pos[n0], "to_pos": to[n0],
+                    "boundary": _spell(draw, st.sampled_from(RULES), names), "fill_value": _spell(draw, fills, names)}
+        elif kind == "interp_like":
+            call = {"fn": "interp_like", "da": aname, "like": draw(st.sampled_from(sorted(a for a in arrays if a != aname)))}
+        elif kind in OPS + ["cumsum", "cumint", "weighted"]:
             call["fn"] = kind if kind != "weighted" else draw(st.sampled_from(OPS + ["cumsum"]))
             call["to"] = draw(st.sampled_from([to, to, None]))
             if call["to"] is not None and draw(st.sampled_from([False, False, True])):
@@ -176,8 +183,12 @@ def faces_family(draw, max_calls=3):
             "face_connections": {"dim": "FACE", "table": table}}
     calls = []
     for _ in range(draw(st.integers(1, max_calls))):
-        kind = draw(st.sampled_from(["pad-scalar", "pad-vector", "op-scalar", "op-vector"]))
-        if kind.startswith("pad"):
+        kind = draw(st.sampled_from(["pad-scalar", "pad-vector", "op-scalar", "op-vector", "vec2d"]))
+        if kind == "vec2d":
+            call = {"fn": "vec2d", "op": draw(st.sampled_from(["interp", "diff"])), "comps": {"X": "U", "Y": "V"},
+                    "order": draw(st.sampled_from([["X", "Y"], ["Y", "X"]])),
+                    "boundary": draw(st.sampled_from([None, "fill", "extend", {"X": "extend", "Y": "fill"}]))}
+        elif kind.startswith("pad"):
             w = {a: [draw(st.integers(0, N)), draw(st.integers(0, N))] for a in "XY"}
             if all(x == [0, 0] for x in w.values()):
                 w["X"] = [1, 1]
